@@ -3,11 +3,51 @@ package lens
 import (
 	"context"
 
+	"github.com/notaryproject/notation-core-go/signature"
+	"github.com/notaryproject/notation-go"
 	"github.com/notaryproject/notation-go/plugin"
+	"github.com/notaryproject/notation-go/verifier"
+	"github.com/opencontainers/go-digest"
+	ocispec "github.com/opencontainers/image-spec/specs-go/v1"
+
+	"verifsim/world"
 )
 
-// c16Verify runs an end-to-end verifier.Verify of a signature whose
-// verification-plugin attribute carries name. ok=false: not available.
+// c16Verify runs an end-to-end verifier.Verify with the real CLIManager of an
+// envelope whose verification-plugin attribute carries name. The envelope is
+// signed (through notation-core-go's SignRequest) by a certificate the policy
+// does NOT trust: the plugin lookup happens before authenticity is evaluated,
+// so the name is used while the signature is still unauthenticated.
+// ok=false: the name cannot be carried (the attribute must be a non-blank string).
 var c16Verify = func(ctx context.Context, mgr *plugin.CLIManager, name string) (err error, ok bool) {
-	return nil, false
+	blank := true
+	for _, c := range name {
+		if c != ' ' && c != '\t' && c != '\n' && c != '\r' {
+			blank = false
+		}
+	}
+	if blank {
+		return nil, false
+	}
+	world.ResetSerial()
+	attacker := world.NewChain("attacker", 0, world.EC256, nil)
+	trusted := world.NewCert(nil, world.CertOpts{CN: "the-only-trusted-root", IsCA: true, PathLen: -1})
+	desc := ocispec.Descriptor{MediaType: ocispec.MediaTypeImageManifest, Digest: digest.FromString("c16"), Size: 16}
+	sig, serr := world.SignPayload(attacker, world.PayloadFor(desc), world.SignOpts{MediaType: world.JWS,
+		ExtAttrs: []signature.Attribute{{Key: "io.cncf.notary.verificationPlugin", Critical: true, Value: name}}})
+	if serr != nil {
+		return nil, false
+	}
+	store := world.NewScriptedStore()
+	store.Put("ca", "s", trusted.Cert)
+	v, verr := verifier.NewVerifierWithOptions(store, verifier.VerifierOptions{
+		OCITrustPolicy:                 world.OCIDoc(world.Statement("p", "strict", nil, []string{"ca:s"}, []string{"*"}, []string{"*"})),
+		PluginManager:                  mgr,
+		RevocationCodeSigningValidator: &world.ScriptedValidator{}, RevocationTimestampingValidator: &world.ScriptedValidator{},
+	})
+	if verr != nil {
+		return nil, false
+	}
+	_, err = v.Verify(ctx, desc, sig, notation.VerifierVerifyOptions{ArtifactReference: "registry.example/repo@" + desc.Digest.String(), SignatureMediaType: world.JWS})
+	return err, true
 }
